@@ -68,7 +68,7 @@ func (b *exampleBuilder) build(node internalSchema.Node) ([]byte, error) {
 }
 
 func (b *exampleBuilder) buildExampleForObjectNode(node *internalSchema.ObjectNode) ([]byte, error) {
-	if node.Constraint(constraint.TypesListConstraintType) != nil {
+	if hasUserTypeReference(node) {
 		return nil, errors.ErrUserTypeFound
 	}
 
@@ -115,6 +115,14 @@ func (b *exampleBuilder) buildExampleForObjectNode(node *internalSchema.ObjectNo
 	return append([]byte(nil), buf.Bytes()...), nil
 }
 
+// hasUserTypeReference tells whether the node stands for a user type. An empty
+// object or array with an "or" of JSON types and rule-sets does not: like for
+// a literal with an "or" rule, its example is what is written in the schema.
+func hasUserTypeReference(node internalSchema.Node) bool {
+	c, ok := node.Constraint(constraint.TypesListConstraintType).(*constraint.TypesList)
+	return ok && c.HasUserTypes()
+}
+
 func isRequiredKey(node *internalSchema.ObjectNode, key string) bool {
 	c, ok := node.Constraint(constraint.RequiredKeysConstraintType).(*constraint.RequiredKeys)
 	if !ok {
@@ -151,7 +159,7 @@ func (b *exampleBuilder) buildObjectKey(k internalSchema.ObjectNodeKey) ([]byte,
 }
 
 func (b *exampleBuilder) buildExampleForArrayNode(node *internalSchema.ArrayNode) ([]byte, error) {
-	if node.Constraint(constraint.TypesListConstraintType) != nil {
+	if hasUserTypeReference(node) {
 		return nil, errors.ErrUserTypeFound
 	}
 
